@@ -209,7 +209,7 @@ def c_prove_inner(it, recv, a):
     it.ctx.event("for_each_in_order", canon(pis), (("append_message", canon(VLabel("pi")), canon(vf.to_bytes(Sym(canon(pis) + "[*]")))),))
     # ---- round 1: the four wire polynomials, each masked with (b_{2i} + b_{2i+1} X)(X^n - 1), blinders drawn in this order
     wb = [[rng_draw(it), rng_draw(it)] for _ in range(4)]
-    wires = [VOpaque(f"havoc:{n}#2") for n in ("a_scalars", "b_scalars", "c_scalars", "d_scalars")]
+    wires = [VOpaque(f"havoc:{n}") for n in ("a_scalars", "b_scalars", "c_scalars", "d_scalars")]
     polys = [blind_spec(domain, wires[i], wb[i]) for i in range(4)]
     it.ctx.exits.append(("try", "commit => Err(PolynomialDegreeTooLarge)"))
     comms = [commit(p) for p in polys]
@@ -348,7 +348,7 @@ def c_quotient_compute(it, recv, a):
     """t(X) = numerator / Z_H is a polynomial of degree < 7n only if the numerator vanishes on H; the function must
     return Err(CircuitUnsatisfied) exactly when the interpolated quotient has more than 7 * (|8n domain| / 8) coefficients,
     and Ok(that polynomial) otherwise."""
-    q = as_poly_sym("havoc:coset#1")
+    q = as_poly_sym("havoc:coset")
     cond = VOpaque("gt", [VOpaque("len", [q]), C(7) * P(VOpaque("div", [Sym("size8"), 8]))])
     it.ctx.exits.append(("err_if", cond, "Error::CircuitUnsatisfied"))
     return VOk(q)
